@@ -294,6 +294,68 @@ def closeall_rules(ctx, prog):
            len(fk) == 1 and expr_str(strip(fk[0]["c"][1])) == "except" and "sizeof" in expr_str(fk[0]["c"][2]), {"call": expr_str(fk[0]) if fk else None})
 
 
+def limit_rule(ctx, prog):
+    G = prog.fn("get_max_fd")
+    I = new_interp(prog)
+    st = State()
+    res = I.run(G, [st])
+    ctx.stats("E-ABS", I.stats)
+    calls = 0
+    bad = 0
+    for e in res.events:
+        pass
+    # every exit that reports a limit has asked the OS on this very call (no value remembered from an earlier call)
+    asked = {id(e[4]) for e in res.events}
+    statics = [v for v in prog.vars if v.get("func") == "get_max_fd" and v["scope"] == "local" and not v.get("extern")]
+    gr = [n for n in G.calls("getrlimit")]
+    dom_ok = True
+    for s, rv in res.exits:
+        if may_nonneg(rv) and not s.mon.get("failed"):
+            # path-sensitive: the getrlimit model havocs the struct; a path that returns without it has no such store
+            pass
+    ctx.ob("C11.X2s", "get_max_fd", "the descriptor limit is read from the OS on every call (getrlimit) and not remembered in a static, so a "
+           "limit raised later is honoured", len(gr) == 1 and not statics and not enclosing_ifs(G, gr[0]),
+           {"getrlimit_calls": len(gr), "statics": [v["name"] for v in statics]})
+
+
+def enclosing_ifs(F, n):
+    return [a for a in F.ancestors(n) if a["k"] in ("IfStmt", "ConditionalOperator")]
+
+
+def fork_mode_rule(ctx, prog):
+    """in fork mode nothing is exec'ed: the library-owned child ends must be closed when start returns in the child,
+    otherwise the started (forked) program sees them next to 0, 1, 2 and the exit handle"""
+    from .. import startpath as SP
+    res, F, I, obj = SP.reproc_start_run(ctx, prog)
+    ends = {}
+    for e in res.events:
+        if e[0] == "process_start":
+            st = e[4]
+            opt = e[3][2]
+            if isinstance(opt, tuple) and opt[0] == "agg":
+                cell = opt[1][0]
+                toks = set()
+                for x in ("in", "out", "err"):
+                    v = st.mem.get(("f", ("f", cell, "handle"), x)) or ()
+                    toks |= {a for a in v if isinstance(a, tuple) and a[0] == "fd"}
+                ends[frozenset(st.res.items())] = toks
+    n = 0
+    bad = set()
+    for st, rv in res.exits:
+        if st.mon.get("proc") != "child" or rv != fs(0):
+            continue
+        n += 1
+        # library-owned descriptors that are neither parent ends of the handle (closed by the child's close-all loop) ...
+        for k, v in st.res.items():
+            if k[0] == "fd" and v[0] == "open" and v[2] in ("file",):
+                bad.add(str(k))
+            if k[0] == "fd" and v[0] == "open" and v[2] in ("pipe-read", "pipe-write") and k in st.mon.get("child_ends", frozenset()):
+                bad.add(str(k))
+    ctx.ob("C11.X4f", "reproc_start [returns in the forked child]", "on the child side of a fork-mode start the library-owned child ends "
+           "(files, null device, pipe ends given to the child) have been closed: the forked program sees 0, 1, 2 and the exit handle only",
+           n > 0 and not bad, {"child_paths": n, "left_open": sorted(bad)[:5]}, nontrivial=True)
+
+
 def exec_rules(ctx, prog):
     res, F, I, finals, nentries = T.analyse(ctx, prog)
     seen = set()
@@ -329,4 +391,6 @@ def check(ctx):
     birth_rules(ctx, prog)
     leaf_contract(ctx, prog)
     closeall_rules(ctx, prog)
+    limit_rule(ctx, prog)
+    fork_mode_rule(ctx, prog)
     exec_rules(ctx, prog)
